@@ -25,6 +25,10 @@ CLAIMED = {
          "The model proves FaultIsFatal / NoSilentTruncation / HealthyIsNotFatal and termination for every (decompressed size vs buffer sizes, fault kind, fault position) and shows the four sites where the fault can surface (constructor, sniffer read, first chunk read, later reads); real .gz/.bz2/.xz/.zst files written by the repository's own writers are truncated at every byte (thorough; sampled incl. header and trailer regions in quick; files larger than the 1 MiB sniffing buffer included) and bit-flipped, the codec library classifies each fault (instrument), the obiconvert/obicount binaries are run on each (file and stdin) and ReaderFaultTrace accepts the run only if a detectable fault gives a non-zero exit and an intact file gives all records.",
          "Trusted: TLC, the codec libraries as instrument for 'is this fault detectable and after how many bytes'. Faults the codec cannot see and prefixes shorter than the magic number are skipped (counted). One known finding (pgzip accepts a .gz whose whole 8-byte trailer is missing).",
          "DESIGN.md 5 C17"),
+ "C13": ("TLC model checking of Clean.tla (edges, son counts, weight propagation, ratio filter, status on every small data set) and CleanRace.tla (worker pool with atomic vs load/store increment) + replay of every data set on the real BuildSeqGraph with 1/2/8 workers and of the lost-update schedule with a barrier gate + TLC validation (CleanTrace) of graphs of random mutation families + obiclean binary compared across --max-cpu",
+         "The reference graph of every data set of <=4 (thorough 5) sequences drawn from a pool of one-difference variants x counts x ratio is computed by TLC and compared with the graph built by the real code (hook VerifBuildGraph) for several worker counts and input orders; the atomic-increment pool is model-checked for all interleavings (the racy variant must lose an update), and the racy schedule is forced on the real code by a barrier gate on a star data set for 1200-6000 rounds; random families over a,c,g,t incl. reported mutations are validated by CleanTrace; the binary must give identical annotations for --max-cpu 1/2/8/32, -d 2 and -r 0.5.",
+         "Trusted: TLC, the hook VerifBuildGraph (same calls as CLIOBIClean). A pure data race is reproduced statistically: a miss is possible, a false alarm is not. Distance > 1 and the ratio option are checked relationally only at binary level.",
+         "DESIGN.md 5 C13"),
 }
 
 NOT_YET = "check not built yet in this round (planned, see DESIGN.md 10); not claimed"
